@@ -128,7 +128,7 @@ impl ArrValue {
 	#[must_use]
 	pub fn slice(self, index: Option<i32>, end: Option<i32>, step: Option<NonZeroU32>) -> Self {
 		let get_idx = |pos: Option<i32>, len: usize, default| match pos {
-			Some(v) if v < 0 => len.saturating_sub((-v) as usize),
+			Some(v) if v < 0 => len.saturating_sub(v.unsigned_abs() as usize),
 			Some(v) => (v as usize).min(len),
 			None => default,
 		};
